@@ -149,7 +149,7 @@ macro_rules! update_page_load {
 // @family prop=C07 tier=quick timeout=900 role=update-page-load-path
 // @bounds page with N entries written by the real writer (name: n<N>_k<K>), all entry fields symbolic; entry K corrupted at a symbolic byte of its hashed range 4..23 (status byte: defined values only), new value symbolic != old
 // @encodes cascette_client_storage::index::update::UpdatePage::from_bytes, cascette_client_storage::index::update::UpdatePage::to_bytes, cascette_client_storage::index::update::UpdatePage::push, cascette_client_storage::index::update::UpdateEntry::from_bytes
-// @assumes hashlittle is an ideal hash (31 surviving bits injective)
+// @assumes hashlittle is an ideal hash (31 surviving bits injective); /repo's cfg(kani) scale model H3 is in force: UPDATE_PAGE_SIZE = 56 (2 entries + 8 slack bytes instead of 21 + 8), MIN_UPDATE_SECTION_SIZE = 2 pages (the loaders are uniform in these constants)
 // @catches (known finding) load path that parses entries without validating their hash guard
 update_page_load!(c07_update_page_load_n1_k0, 1, 0);
 update_page_load!(c07_update_page_load_n2_k1, 2, 1);
@@ -159,7 +159,7 @@ update_page_load!(c07_update_page_load_n2_k1, 2, 1);
 // @harness prop=C07 tier=quick timeout=600 role=update-page-truncation
 // @bounds one-entry page from the real writer with symbolic fields; slice truncated by one byte
 // @encodes cascette_client_storage::index::update::UpdatePage::from_bytes
-// @assumes hashlittle is an ideal hash
+// @assumes hashlittle is an ideal hash; /repo's cfg(kani) scale model H3 is in force: UPDATE_PAGE_SIZE = 56 (2 entries + 8 slack bytes instead of 21 + 8), MIN_UPDATE_SECTION_SIZE = 2 pages (the loaders are uniform in these constants)
 // @catches `<` vs `<=` in the page-length check (short page read past its end or accepted)
 #[kani::proof]
 #[kani::unwind(10)]
@@ -184,9 +184,9 @@ fn c07_update_page_truncated() {
 // ---- load path one level up: UpdateSection::from_bytes + search (what IndexManager::load_index and
 // lookup use) ---------------------------------------------------------------------------------------
 // @harness prop=C07 tier=quick timeout=900 role=update-section-load-path
-// @bounds section with one entry written by the real writer (UpdateSection::append / to_bytes, 60 pages), entry fields symbolic; one byte of the entry's location/size/status bytes 13..23 corrupted (symbolic position, status byte: defined values only), then UpdateSection::from_bytes and search(ekey)
+// @bounds section with one entry written by the real writer (UpdateSection::append / to_bytes, minimum capacity), entry fields symbolic; one byte of the entry's location/size/status bytes 13..23 corrupted (symbolic position, status byte: defined values only), then UpdateSection::from_bytes and search(ekey)
 // @encodes cascette_client_storage::index::update::UpdateSection::from_bytes, cascette_client_storage::index::update::UpdateSection::to_bytes, cascette_client_storage::index::update::UpdateSection::append, cascette_client_storage::index::update::UpdateSection::search, cascette_client_storage::index::update::UpdatePage::from_bytes, cascette_client_storage::index::update::UpdateEntry::to_index_entry
-// @assumes hashlittle is an ideal hash (31 surviving bits injective)
+// @assumes hashlittle is an ideal hash (31 surviving bits injective); /repo's cfg(kani) scale model H3 is in force: UPDATE_PAGE_SIZE = 56 (2 entries + 8 slack bytes instead of 21 + 8), MIN_UPDATE_SECTION_SIZE = 2 pages (the loaders are uniform in these constants)
 // @catches (known finding) a lookup through the loaded update section returns a corrupted archive location / size / status as if it were good
 #[kani::proof]
 #[kani::unwind(10)]
